@@ -22,31 +22,31 @@ import (
 )
 
 type scenario struct {
-	Name      string `json:"name"`
-	Kind      string `json:"kind"` // gate | unhealthy | graceful | nohealth
-	Checks    []bool `json:"checks,omitempty"`    // results of successive health checks (then: pass)
-	Threshold int    `json:"threshold,omitempty"`
-	GraceMs   int    `json:"grace_ms"`
-	Signal    string `json:"signal,omitempty"` // INT | TERM
-	Phase     string `json:"phase,omitempty"`  // idle | at-backend
-	BackendMs int    `json:"backend_ms,omitempty"`
-	SignalAfterMs int `json:"signal_after_ms,omitempty"` // after the request reached the backend (or after start when idle)
+	Name          string `json:"name"`
+	Kind          string `json:"kind"`             // gate | unhealthy | graceful | nohealth
+	Checks        []bool `json:"checks,omitempty"` // results of successive health checks (then: pass)
+	Threshold     int    `json:"threshold,omitempty"`
+	GraceMs       int    `json:"grace_ms"`
+	Signal        string `json:"signal,omitempty"` // INT | TERM
+	Phase         string `json:"phase,omitempty"`  // idle | at-backend
+	BackendMs     int    `json:"backend_ms,omitempty"`
+	SignalAfterMs int    `json:"signal_after_ms,omitempty"` // after the request reached the backend (or after start when idle)
 }
 
 type result struct {
-	Scenario       scenario `json:"scenario"`
-	HealthTimesMs  []int64  `json:"health_times_ms"`  // when each health check arrived (since start)
-	HealthResults  []bool   `json:"health_results"`
-	ListStartsMs   []int64  `json:"list_starts_ms"`
-	ListReturnsMs  []int64  `json:"list_returns_ms"`
-	SignalMs       int64    `json:"signal_ms"`
-	ExitMs         int64    `json:"exit_ms"` // -1: still running when the scenario ended
-	ExitCode       int      `json:"exit_code"`
-	AtBackendMs    int64    `json:"at_backend_ms"`
-	UploadDoneMs   int64    `json:"upload_done_ms"` // -1: no complete upload
-	UploadOK       bool     `json:"upload_ok"`
-	Err            string   `json:"err,omitempty"`
-	Stderr         string   `json:"stderr_tail,omitempty"`
+	Scenario      scenario `json:"scenario"`
+	HealthTimesMs []int64  `json:"health_times_ms"` // when each health check arrived (since start)
+	HealthResults []bool   `json:"health_results"`
+	ListStartsMs  []int64  `json:"list_starts_ms"`
+	ListReturnsMs []int64  `json:"list_returns_ms"`
+	SignalMs      int64    `json:"signal_ms"`
+	ExitMs        int64    `json:"exit_ms"` // -1: still running when the scenario ended
+	ExitCode      int      `json:"exit_code"`
+	AtBackendMs   int64    `json:"at_backend_ms"`
+	UploadDoneMs  int64    `json:"upload_done_ms"` // -1: no complete upload
+	UploadOK      bool     `json:"upload_ok"`
+	Err           string   `json:"err,omitempty"`
+	Stderr        string   `json:"stderr_tail,omitempty"`
 }
 
 func runScenario(agentBin string, sc scenario) result {
